@@ -85,6 +85,109 @@ def forced(atom, conds):
     return res[0] if res else None
 
 
+# ------------------------------------------------------------------ stdlib `re` on concrete strings (shared by the string-level evaluators)
+_RE_FLAGS = ("I", "IGNORECASE", "M", "MULTILINE", "S", "DOTALL", "X", "VERBOSE", "A", "ASCII")
+_RE_FUNCS = ("search", "match", "fullmatch", "split", "sub", "subn", "findall")
+_RE_MATCH_METHODS = ("groups", "group", "groupdict", "start", "end", "span")
+
+
+def re_flag(n, ev):
+    """value of `re.<FLAG>` when `re` is the stdlib module (not shadowed by a local of the evaluated function), else NotImplemented."""
+    import ast
+    import re as _re
+    if isinstance(n, ast.Attribute) and isinstance(n.value, ast.Name) and n.value.id == "re" and "re" not in ev.env and n.attr in _RE_FLAGS:
+        return int(getattr(_re, n.attr))
+    return NotImplemented
+
+
+def re_subscript(b, i):
+    """`m[i]` on a modelled match object, else NotImplemented."""
+    from ..peval import Obj
+    if isinstance(b, Obj) and b.name == "match" and "m" in b.attrs:
+        r = b.attrs["m"][i]
+        return list(r) if isinstance(r, tuple) else r
+    return NotImplemented
+
+
+def re_model(name, n, ev):
+    """call hook fragment: the regular-expression calls small parsers use, decided by Python's own `re` on CONCRETE strings --
+    re.compile(p[, flags]); re.search / match / fullmatch / split / sub / subn / findall(p, s, ...) and the same methods of a compiled
+    pattern; m.groups() / m.group(..) / m.groupdict() / m.start() / m.end() / m.span() of a match.  A pattern is an Obj('pattern', {'re': ..}),
+    a match an Obj('match', {'groups': tuple, 'm': the match}) (truthy), no match is None.  Returns NotImplemented for any other call; raises
+    Unknown when a regex call has an argument that is not concrete (the evaluator never guesses)."""
+    import ast
+    import re as _re
+    from ..peval import Obj, Unknown
+    from ..src import unparse
+
+    def wrap(r):
+        if r is None:
+            return None
+        if isinstance(r, _re.Match):
+            return Obj("match", {"groups": r.groups(), "m": r})
+        if isinstance(r, tuple):
+            return list(r)
+        return r
+
+    def argv():
+        pos = []
+        for a in n.args:
+            if isinstance(a, ast.Starred):
+                pos.extend(ev.ev(a.value))
+            else:
+                pos.append(ev.ev(a))
+        kw = {}
+        for k in n.keywords:
+            if k.arg is None:
+                raise Unknown("** arguments in %s" % unparse(n))
+            kw[k.arg] = ev.ev(k.value)
+        for v in pos + list(kw.values()):
+            if isinstance(v, bool) or not isinstance(v, (str, int)):
+                raise Unknown("regular-expression call with a non-concrete argument: %s" % unparse(n))
+        return pos, kw
+
+    def apply_(f):
+        pos, kw = argv()
+        try:
+            return wrap(f(*pos, **kw))
+        except (TypeError, _re.error, IndexError) as e:
+            raise Unknown("regular-expression call not evaluable: %s (%s)" % (unparse(n), e))
+
+    f = n.func
+    if isinstance(f, ast.Attribute) and isinstance(f.value, ast.Name) and f.value.id == "re" and "re" not in ev.env:
+        if f.attr == "compile":
+            pos, kw = argv()
+            try:
+                return Obj("pattern", {"re": _re.compile(*pos, **kw)})
+            except (TypeError, _re.error) as e:
+                raise Unknown("re.compile not evaluable: %s (%s)" % (unparse(n), e))
+        if f.attr in _RE_FUNCS:
+            return apply_(getattr(_re, f.attr))
+        if f.attr == "escape":
+            return apply_(_re.escape)
+        return NotImplemented
+    def pure(x):
+        # the receiver is evaluated here and possibly again by the caller's own string-method model: only do so when that cannot have an effect
+        for c in ast.walk(x):
+            if isinstance(c, ast.Call):
+                g = c.func
+                if not ((isinstance(g, ast.Attribute) and (g.attr in _RE_FUNCS + _RE_MATCH_METHODS or (isinstance(g.value, ast.Name) and g.value.id == "re")))
+                        or (isinstance(g, ast.Name) and g.id in ("str", "int", "float", "len"))):
+                    return False
+        return True
+
+    if isinstance(f, ast.Attribute) and f.attr in _RE_FUNCS + _RE_MATCH_METHODS and pure(f.value):
+        try:
+            base = ev.ev(f.value)
+        except Unknown:
+            return NotImplemented
+        if isinstance(base, Obj) and base.name == "pattern" and "re" in base.attrs and f.attr in _RE_FUNCS:
+            return apply_(getattr(base.attrs["re"], f.attr))
+        if isinstance(base, Obj) and base.name == "match" and "m" in base.attrs and f.attr in _RE_MATCH_METHODS:
+            return apply_(getattr(base.attrs["m"], f.attr))
+    return NotImplemented
+
+
 # ------------------------------------------------------------------ START CLOCKTIME writer / reader (shared by C12 and C03)
 def clocktime_round_trip(repo):
     """finite evaluation of the START CLOCKTIME writer (12-hour conversion in InpFile._write_times) composed with the reader
@@ -119,7 +222,14 @@ def clocktime_round_trip(repo):
         def e_Subscript(self, n):
             b = self.ev(n.value)
             i = self.ev(n.slice)
+            r = re_subscript(b, i)
+            if r is not NotImplemented:
+                return r
             return b[i]
+
+        def e_Attribute(self, n):
+            r = re_flag(n, self)
+            return r if r is not NotImplemented else Evaluator.e_Attribute(self, n)
 
         def e_JoinedStr(self, n):
             raise Unknown("f-string")
@@ -134,14 +244,9 @@ def clocktime_round_trip(repo):
             return round(ev.ev(n.args[0]))
         if name == "bool":
             return ev.ev(n.args[0]) is not None and ev.ev(n.args[0]) is not False
-        if name == "re.compile":
-            return Obj("pattern", {"re": _re.compile(ev.ev(n.args[0]))})
-        if name.endswith(".search") or name == "?.search":
-            pat = ev.ev(n.func.value)
-            m = pat.attrs["re"].search(ev.ev(n.args[0]))
-            return None if m is None else Obj("match", {"groups": m.groups()})
-        if name.endswith(".groups") or name == "?.groups":
-            return list(ev.ev(n.func.value).attrs["groups"])
+        r = re_model(name, n, ev)
+        if r is not NotImplemented:
+            return r
         if name.endswith(".upper"):
             return ev.ev(n.func.value).upper()
         if name.endswith(".startswith"):
@@ -196,7 +301,15 @@ def _string_evaluator(repo, siblings=None):
                 lo = self.ev(n.slice.lower) if n.slice.lower is not None else None
                 hi = self.ev(n.slice.upper) if n.slice.upper is not None else None
                 return b[lo:hi]
-            return b[self.ev(n.slice)]
+            i = self.ev(n.slice)
+            r = re_subscript(b, i)
+            if r is not NotImplemented:
+                return r
+            return b[i]
+
+        def e_Attribute(self, n):
+            r = re_flag(n, self)
+            return r if r is not NotImplemented else Evaluator.e_Attribute(self, n)
 
         def e_Starred(self, n):
             raise Unknown("starred")
@@ -216,17 +329,11 @@ def _string_evaluator(repo, siblings=None):
         if name == "bool":
             v = args()[0]
             return v is not None and v is not False and v != 0
-        if name == "re.compile":
-            return Obj("pattern", {"re": _re.compile(args()[0])})
+        r = re_model(name, n, ev)
+        if r is not NotImplemented:
+            return r
         if isinstance(n.func, ast.Attribute):
             m = n.func.attr
-            if m in ("search", "match"):
-                pat = ev.ev(n.func.value)
-                if isinstance(pat, Obj) and "re" in pat.attrs:
-                    r = getattr(pat.attrs["re"], m)(args()[0])
-                    return None if r is None else Obj("match", {"groups": r.groups()})
-            if m == "groups":
-                return list(ev.ev(n.func.value).attrs["groups"])
             if m in ("upper", "lower", "strip", "split", "startswith", "endswith", "format", "replace"):
                 base = ev.ev(n.func.value)
                 if isinstance(base, str):
